@@ -250,6 +250,7 @@ class C20(Check):
         self.process(ctx, E, self.gen_sniff(ctx, rng), 'sniff')
         self.process(ctx, E, self.gen_table(ctx), 'table')
         self.process(ctx, E, self.gen_info(ctx, rng), 'info')
+        self.process(ctx, E, self.gen_metadocs(ctx, rng), 'metadocs')
         self.process(ctx, E, self.gen_metascan(ctx, rng), 'metascan')
         self.process(ctx, E, self.gen_encoded(ctx, rng), 'encoded')
         self.process(ctx, E, self.gen_try(ctx, rng), 'try')
@@ -547,6 +548,40 @@ class C20(Check):
             n = rng.randint(1, 12)
             docs.append(bytes(rng.choice(hot) if rng.random() < 0.4 else rng.randrange(32, 127) for _ in range(n)))
         return [{'call': 'tryEncodings', 'doc': d.decode('latin-1')} for d in docs]
+
+    # -- documents for the meta stage: what html.parser reports for them goes through the model ------------------
+    def gen_metadocs(self, ctx, rng):
+        """documents with several / odd <meta> elements; no expectation from the documented table (the key meta_charset is
+        left out): correspondence of the whole call, of the callback on the reported start tags, and the oracle spec_meta"""
+        he = ['http-equiv="Content-Type"', "http-equiv='content-type'", 'HTTP-EQUIV=Content-Type', 'http-equiv=" content-type "',
+              'http-equiv', 'http-equiv=""', 'http-equiv="refresh"', 'http-equiv="content&#45;type"', 'http-equiv="Content-Type" http-equiv="x"',
+              'http-equiv="x" http-equiv="Content-Type"', 'name="keywords"', 'charset="utf-8"', 'charset']
+        co = ['content="text/html;charset=%s"', "content='text/html; charset=%s'", 'content=text/html;charset=%s', 'CONTENT="TEXT/HTML;CHARSET=%s"',
+              'content=""', 'content', 'content="text/html"', 'content="a" content="text/html;charset=%s"', 'content="%s"', '']
+        wrap = ['%s', '%s', '%s', '<!-- %s -->', '<script>%s</script>', '<head>%s</head>', '<HEAD>%s</HEAD>', '<title>%s</title>',
+                '<style>%s</style>', '<p title="%s">', '<![CDATA[%s]]>', '<noscript>%s</noscript>', '<textarea>%s</textarea>']
+        end = ['>', ' >', '/>', ' />', '>', '\n>']
+        ws = []
+        for _ in range(ctx.n(500, 40000)):
+            parts = []
+            for _ in range(rng.randint(1, 4)):
+                c = rng.choice(co)
+                if '%s' in c:
+                    c = c % rng.choice(ENC_NAMES + ['X-\xc9t\xe9', ''])
+                attrs = [rng.choice(he), c]
+                rng.shuffle(attrs)
+                tag = rng.choice(['meta', 'meta', 'meta', 'META', 'Meta', 'link', 'metadata'])
+                m = '<' + tag + ' ' + ' '.join(a for a in attrs if a) + rng.choice(end)
+                w = rng.choice(wrap)
+                parts.append(w % (m.replace('"', "'") if 'title=' in w else m))
+            text = rng.choice(['', '<!DOCTYPE html>', '<?xml version="1.0" encoding="Enc-C"?>', '\xef\xbb\xbf']) + '<html>' + ''.join(parts) + \
+                rng.choice(['</html>', '', '<body>x</body></html>', '<meta'])
+            mt = rng.choice(['text/html', 'text/html', 'text/plain', 'text/x-foo', 'application/xhtml+xml'])
+            cs = rng.choice([None, None, 'Enc-A'])
+            ws.append({'call': 'getEncodingInfo', 'text': text, 'bytes': rng.random() < 0.4 and all(ord(ch) < 256 for ch in text),
+                       'resp': {'kind': 'message', 'content_type': mt + ('' if cs is None else ';charset=' + cs), 'body': None},
+                       'media_type': mt, 'charset': cs, 'stream': 'metadocs'})
+        return ws
 
     # -- attribute lists straight into the callback of the meta parser --------------------------------------
     def gen_metascan(self, ctx, rng):
